@@ -21,6 +21,25 @@ def ensure_repo_importable():
     here = os.path.abspath(os.path.dirname(pb_bss.__file__)) + os.sep
     if here != PKG_DIR:
         raise RuntimeError(f'pb_bss imported from {here}, expected {PKG_DIR}')
+    # import everything the catalogue touches now: module-level code must
+    # never run inside a traced / fault-injected operation (line counts and
+    # hence interrupt positions would depend on import history)
+    import pb_bss.distribution  # noqa
+    import pb_bss.distribution.complex_bingham  # noqa
+    import pb_bss.distribution.complex_bingham_utils  # noqa
+    import pb_bss.distribution.mixture_model_utils  # noqa
+    import pb_bss.distribution.utils  # noqa
+    import pb_bss.extraction  # noqa
+    import pb_bss.extraction.beamformer_wrapper  # noqa
+    import pb_bss.extraction.mask_module  # noqa
+    import pb_bss.permutation_alignment  # noqa
+    import pb_bss.evaluation.sxr_module  # noqa
+    import pb_bss.evaluation.module_si_sdr  # noqa
+    import pb_bss.initializer  # noqa
+    import pb_bss.initializer.deflation  # noqa
+    import pb_bss.math.solve  # noqa
+    import pb_bss.utils  # noqa
+    import scipy.special, scipy.interpolate, scipy.optimize  # noqa
     from pb_bss import _verif
     if not _verif.ENABLED:
         raise RuntimeError('PB_BSS_VERIF hook guard is not enabled')
